@@ -335,6 +335,56 @@ def extract_assign_ops(token_cpp):
     return ["=", "<<=", ">>="] + [c + "=" for c in m.group(1)]
 
 
+SKIPDECL_TAIL = norm('''Token *vartok = tok;
+    while (Token::Match(vartok, "%name%|*|&|&&|::|<")) {
+        if (vartok->str() == "<") {
+            if (vartok->link())
+                vartok = vartok->link();
+            else
+                return tok;
+        } else if (Token::Match(vartok, "%var% [:=({]")) {
+            return vartok;
+        } else if (Token::Match(vartok, "decltype|typeof (") && !isDecltypeFuncParam(tok->linkAt(1))) {
+            if (inner)
+                inner->push_back(vartok->tokAt(2));
+            return vartok->linkAt(1)->next();
+        }
+        vartok = vartok->next();
+    }
+    return tok;''')
+
+
+def extract_skipdecl(src):
+    """the early return of skipDecl: plain, or with the `tok->varId() != 0` guard (proposed fix of F7a)"""
+    m = re.search(r"\nstatic Token\* skipDecl\(Token\* tok, std::vector<Token\*>\* inner = nullptr\)\s*\{", src)
+    if not m:
+        raise Unrecognised("skipDecl not found")
+    i = m.end(); depth, j = 1, i
+    while depth:
+        c = src[j]
+        if c == '"' or c == "'":
+            k = j + 1
+            while src[k] != c:
+                k += 2 if src[k] == "\\" else 1
+            j = k
+        elif c == "{":
+            depth += 1
+        elif c == "}":
+            depth -= 1
+        j += 1
+    body = norm(src[i:j - 1])
+    if not body.endswith(SKIPDECL_TAIL):
+        raise Unrecognised("skipDecl: loop differs from the modelled shape")
+    head = body[:-len(SKIPDECL_TAIL)]
+    k = head.rfind("};")
+    first = head[k + 2:].strip() if k >= 0 else head
+    if first == norm('if (!Token::Match(tok->previous(), "( %name%")) return tok;'):
+        return False
+    if first == norm('if (!Token::Match(tok->previous(), "( %name%") || tok->varId() != 0) return tok;'):
+        return True
+    raise Unrecognised("skipDecl: early return not of a known shape: " + first)
+
+
 def extract(repo=None):
     repo = repo or core.REPO
     src = strip_comments(open(os.path.join(repo, "lib", "tokenlist.cpp"), encoding="utf-8").read())
@@ -355,7 +405,7 @@ def extract(repo=None):
             lv["ops"] = [(o, "always") for o in assign_ops]
         levels.append(lv)
         cur = lv["callee"]
-    return dict(maxDepth=maxdepth, entry="compileComma", bottom="compilePrecedence3", levels=levels)
+    return dict(maxDepth=maxdepth, entry="compileComma", bottom="compilePrecedence3", levels=levels, declVarGuard=extract_skipdecl(src))
 
 
 def lstr(s):
@@ -374,6 +424,7 @@ def gen_text(x):
     L.append("  { maxDepth := %d," % x["maxDepth"])
     L.append("    entry := %s," % lstr(x["entry"]))
     L.append("    bottom := %s," % lstr(x["bottom"]))
+    L.append("    declVarGuard := %s," % ("true" if x["declVarGuard"] else "false"))
     L.append("    levels := [")
     rows = []
     for lv in x["levels"]:
